@@ -2,7 +2,7 @@
 UNITS = ['budget', 'scalars', 'events', 'location', 'live', 'reader', 'snippet', 'quoting', 'typed', 'base64', 'crop', 'robotics', 'plain']
 
 GLOBAL_ASSUMPTIONS = [
-    'Verus 0.2026.09.13 and its bundled Z3 are sound; the extractor rewrite rules R0..R37 preserve meaning (DESIGN.md 3.2 and section 0)',
+    'Verus 0.2026.09.13 and its bundled Z3 are sound; the extractor rewrite rules R0..R37 preserve meaning; the bounded stand-in (vc/bounded.py) is only ever used to FIND failing inputs for functions Verus cannot take and is never counted as proof (DESIGN.md 3.2 and section 0)',
     'assumed contracts (external_body / assume_specification / axioms) listed in coverage.trusted_base',
     'derived Hash/Eq/Clone impls are lawful; SmallVec behaves as Vec and ahash sets as HashSet for the methods used',
     'no unsafe code in the crate (#![forbid(unsafe_code)], checked by rustc)',
@@ -45,9 +45,10 @@ PROPS = {
     'C09': dict(
         covered=['ChunkedChars::next against an adversarial byte source that hands out ANY non-empty prefix per read (every chunking, including splits inside a code point): Some(c) means c is exactly the next UTF-8 character of the remaining bytes and exactly its bytes were consumed',
                  'LiveEvents implements the Events cursor contract for both input kinds through the same pump (look-ahead served first, peek does not consume)',
+                 'the decoder that buffered_input_from_reader_with_limit puts in front of ChunkedChars removes a leading byte order mark and sniffs the encoding (statement fragment against the assumed encoding_rs_io builder contract)',
                  'from_slice_with_options / from_slice_multiple_with_options: on valid UTF-8 exactly the result of the string entry point on the decoded text with the same options, otherwise Error::InvalidUtf8Input (target type and Options opaque)'],
-        not_covered=['equality of saphyr-parser StrInput / BufferedInput front ends; encoding_rs_io decoding; BOM stripping; borrowed vs owned strings'],
-        assumptions=[],
+        not_covered=['equality of saphyr-parser StrInput / BufferedInput front ends; encoding_rs_io decoding itself; BOM stripping of the str / slice entry points; borrowed vs owned strings'],
+        assumptions=['ASSUMED contract of the external crate encoding_rs_io (contracts/reader.shim.rs, from its documentation): DecodeReaderBytesBuilder::new() has sniffing on, passthru and strip_bom off; build() yields a decoder that removes a leading UTF-8 BOM iff sniffing && (!utf8_passthru || strip_bom)'],
     ),
     'C01': dict(
         covered=['absence of arithmetic overflow, out-of-range indexing, unwrap-on-None and reachable unreachable!() '
@@ -188,27 +189,35 @@ PROPS = {
             'plain-safety predicates (unit plain, src/ser_quoting.rs) against YAML 1.2 rules for plain scalars written independently of the code (plain_reads_back: non-empty, no leading / trailing blank, no leading BOM, first character not an indicator, `-` `?` `:` only before a non-blank, no C0 control / DEL, no `: ` / trailing `:` / ` #`, no flow indicators in flow context): is_plain_safe(s) implies it; is_plain_value_safe(s) implies it unless an edge needs quotes (has_unsafe_plain_edge, which is exactly trailing blank or leading BOM)',
             'is_ambiguous(s) is exactly: empty, ~, null/true/false in any case, `<<`, a document marker (`---` / `...` alone or followed by a blank), [+-]?.inf/.nan in any case, or numeric-looking; nothing ambiguous is ever plain-safe',
             'write_plain_or_quoted / write_plain_or_quoted_value (the decision points): the raw text is written only when it is not ambiguous and reads back as itself in that context; otherwise exactly the double-quoted escape or (quote_all) the single-quoted form',
+            'serialize_str, block-scalar half (two consecutive fragments + seam check): a block scalar is chosen only for text without carriage return / NUL (is_block_scalar_safe refuses every Cc character but LF and TAB); the header is the style character, the indentation indicator as OFFSET FROM THE PARENT NODE (when the first non-empty line starts with a space; quoted fallback when the offset is > 9 or not known), and the chomping indicator for the number of trailing line feeds; the literal body is exactly lit_lines(v) behind the body indentation, and lit_value(lit_lines(v), chomp) == v is a proved lemma over a reader-side definition written from YAML 1.2 section 8.1',
+            'write_folded_block: a long line is broken only at a run of spaces after a non-empty piece, exactly one space of the run is swallowed by the break, the next piece and the line itself start with neither space nor tab, and the pieces joined by single spaces are the original line',
         ],
-        not_covered=['the numeric-looking regex (uninterpreted) and parse_yaml11_bool (std string comparisons; uninterpreted), block scalar selection and chomping indicators (serialize_str, write_folded_block), the key serializer of KeyScalarSink (src/ser.rs:2828), float text (zmij), the reader side of the round trip',
-                     'observed and NOT detected by any contract here: block-scalar indentation indicators in nested positions (reported by an independent reviewer while seeding C12); the trailing-blank observation of the same reviewer became F12 (detected by unit plain, fixed)'],
+        not_covered=['the numeric-looking regex (uninterpreted) and parse_yaml11_bool (std string comparisons; uninterpreted), the body of a FOLDED block scalar as a whole (only its per-line folding is specified), the key serializer of KeyScalarSink (src/ser.rs:2828), float text (zmij), the reader side of the round trip',
+                     'both C12 observations an independent reviewer made while seeding are now contract-detected and fixed: trailing blank (F12) and block-scalar indentation indicators in nested positions (F15)'],
         assumptions=['fmt::Write is an append-only sink (contracts/quoting.shim.rs); write! with {:02X}/{:04X} prints upper-case hex; char::is_control is category Cc',
                      'std str operations of the predicates behave as their shims say (contracts/plain.shim.rs); that plain_reads_back is SUFFICIENT for a YAML reader is not proved (no reader semantics) - it is the list of necessary conditions of the YAML spec',
+                     'ASSUMED layout fact for block scalars (SeqSer / MapSer are outside the unit): the parent of a scalar at nesting level `base` starts at column indent_step * base whenever indent_step == 2 or base == 0; the parent column itself is a ghost parameter of the fragment',
+                     'ASSUMED on entry of serialize_str: indent_step >= 1, indent_step * (base + 1) fits usize, pending_str_from_auto is false (it is cleared at the end of every block scalar and by the quoted fallback)',
+                     'the reader removes exactly the body indentation from each line of a block scalar and applies chomping as YAML 1.2 8.1.1.2 says; for content of empty lines only under clip the crate reader keeps one line feed (observed, pinned by its tests)',
                      ],
     ),
     'C20': dict(
         covered=[
             'write_end_of_scalar: a staged inline comment is written only outside flow context, as ` # ` + text + newline, and is consumed',
             'the statement that stages a Commented comment (lifted from TupleSer::serialize_field): the staged text contains neither \\n nor \\r',
+            'literal / folded wrappers and the prefer_block_scalars option (serialize_str fragments, see C12): automatic literal only for multi-line text, automatic fold only for one line of text, none in flow context or under quote_all; header and literal body as under C12; write_folded_block folding rules (never before a tab, never a line starting with space or tab)',
         ],
-        not_covered=['every other wrapper and option (flow sequences / mappings, literal / folded strings, space-after, option vectors): needs the emitter state machine and a YAML reader semantics (as C13)',
+        not_covered=['every other wrapper and option (flow sequences / mappings, space-after, option vectors other than those read by serialize_str): needs the emitter state machine and a YAML reader semantics (as C13)',
+                     'KNOWN FINDINGS (known_findings.txt): F19 the explicit folded wrapper does not preserve line breaks inside its text (documented, pinned by doc-tests); F20 a block scalar drops the anchor staged for it, so with prefer_block_scalars a shared multi-line string leaves its aliases dangling (pinned by tests/test_block_str.rs::verdanta_case_fold)',
                      'observed, NOT detected by any contract here and not repaired: indent_step other than 2 mis-indents a mapping that starts inside a nested block sequence (`- - key:`), so the option changes data (findings/obs_indent_step_nested_sequences.rs)'],
         assumptions=['String::replace shim (contracts/quoting.shim.rs)'],
     ),
-    'C08': dict(covered=['budget counters bound the number of observed events/nodes (BudgetEnforcer::observe accept_only_within_limits)'],
+    'C08': dict(covered=['budget counters bound the number of observed events/nodes (BudgetEnforcer::observe accept_only_within_limits)',
+                         'next_impl (real body): every replayed event bumps total_replayed_events by exactly one and is delivered only while the counter is within AliasLimits::max_total_replayed_events; an alias is pushed for replay only after its per-anchor counter was bumped by one (saturating) and is within max_alias_expansions_per_anchor and the replay stack would stay within max_replay_stack_depth; no other per-anchor counter changes'],
                 not_covered=['heap bytes (no allocator model)'], assumptions=[]),
 }
 
-NOTES = ('See DESIGN.md. Genuine defects repaired in /repo by fix: commits 0126e05 (F2), 956dd0f (F1a), a6603bd (F7), 6309633 (F1b), 0bae366 (F9), 73b31ba (F3/F4), 64c447b (F5); '
+NOTES = ('See DESIGN.md. Genuine defects repaired in /repo by fix: commits 0126e05 (F2), 956dd0f (F1a), a6603bd (F7), 6309633 (F1b), 0bae366 (F9), 73b31ba (F3/F4), 64c447b (F5), 1f9b096 (F6), d042f27 (F11), 5afc179 (F12/F13), 150dd4b (F14), 4813e0f (F15), 2052644 (F16), deb2f0f (F17), d93acce (F18); open known findings F19, F20 (C20); '
          'recorded in known_findings.txt. Exit 2 (UNDECIDED) is used for tool limits / lost anchors and is never an alarm.')
 
 # properties not claimed (kept current; a property moves out of here when a unit starts carrying it)
